@@ -20,9 +20,15 @@ ASSUMPTIONS = [
 IMPORTS = "From V Require Import Model.Batch Harness.Cmp Harness.H11."
 SERIALIZERS = ["serpent", "json", "marshal", "msgpack"]
 METH = {"add": "MAdd", "mul": "MMul", "get": "MGet", "sub": "MSub", "div": "MDiv", "boom": "MBoom",
-        "hidden": "MHidden", "_secret": "MSecret", "__init__": "MDunder", "nosuch": "MNoSuch", "add.__call__": "MDotted"}
-EXPOSED = ["add", "mul", "get", "sub", "div", "boom"]
-REFUSED = ["hidden", "_secret", "__init__", "nosuch", "add.__call__"]
+        "hidden": "MHidden", "_secret": "MSecret", "__init__": "MDunder", "nosuch": "MNoSuch", "add.__call__": "MDotted",
+        "__len__": "MLen", "__getitem__": "MGetItem", "gated": "MGated",
+        "__secret": "MDSecret", "__hidden__": "MDHidden", "__del__": "MDDel"}
+EXPOSED = ["add", "mul", "get", "sub", "div", "boom", "__len__", "__getitem__", "gated"]
+REFUSED = ["hidden", "_secret", "__init__", "nosuch", "add.__call__", "__secret", "__hidden__", "__del__"]
+NOARG = ("get", "__init__", "__len__", "__secret", "__hidden__", "__del__")
+import threading
+GATE = threading.Event()
+GATE.set()
 MODULUS = 1000003
 
 
@@ -78,6 +84,28 @@ class Env:
                 self.log.append(["boom", k])
                 self.total += k
                 raise RuntimeError("boom", self.total)
+
+            @api.expose
+            def __len__(self):              # exposed special method
+                self.log.append(["__len__", 0])
+                return abs(self.total) % 7 + 1
+
+            @api.expose
+            def __getitem__(self, k):       # exposed special method
+                self.log.append(["__getitem__", k])
+                return self.total + k
+
+            @api.expose
+            def gated(self, k):             # add, after a bounded wait on an event the harness controls
+                self.log.append(["gated", k])
+                GATE.wait(1.0)
+                self.total += k
+                return self.total
+
+            def __hidden__(self):           # dunder-looking name, exists, not exposed
+                self.log.append(["__hidden__", 0])
+                self.total += 1000
+                return self.total
 
             def hidden(self, k):            # not exposed
                 self.log.append(["hidden", k])
@@ -146,11 +174,10 @@ def exc_canon(x):
 
 
 def call_args(name, arg, kw):
-    if name == "get":
+    if name in NOARG:
         return (), {}
-    if name == "__init__":
-        return (), {}
-    if kw and name in EXPOSED:
+    if kw and name in EXPOSED and not name.startswith("__"):
+        # (the Proxy class implements __getitem__(index) itself: special methods are called positionally)
         return (), {"k": arg}
     return (arg,), {}
 
@@ -161,14 +188,12 @@ def run_batch(case):
     a.total, a.log = case["s0"], []
     p = e.pa[case["ser"]]
     b = e.api.BatchProxy(p)
-    for name, arg, kw in case["calls"]:
-        args, kwargs = call_args(name, arg, kw)
-        if name.startswith("__"):
-            # such a name resolves locally on the BatchProxy; a client that wants it in a batch queues it itself
-            e.client._BatchedRemoteMethod(b._BatchProxy__calls, name)(*args, **kwargs)
-        else:
-            getattr(b, name)(*args, **kwargs)
-    obs = {}
+    qerr = []
+    for i, (name, arg, kw) in enumerate(case["calls"]):
+        x = queue_call(e, b, name, arg, kw)
+        if x is not None:
+            qerr.append([i, name, x])
+    obs = {"queue_errors": qerr}
     try:
         if case.get("submit") == "invoke" and not case["oneway"]:
             g = b._pyroInvoke("ignored", (), {})
@@ -193,6 +218,7 @@ def run_batch(case):
             obs["view"] = ["stream", outs]
     obs["state"] = a.total
     obs["log"] = [list(t) for t in a.log]
+    settle()
     return obs
 
 
@@ -231,8 +257,12 @@ def probe_submit(ser):
 # ---------------------------------------------------------------- the property, directly
 def oracle(case, obs):
     ob, os_ = obs["batch"], obs["seq"]
-    calls = [[n, (0 if n in ("get", "__init__") else a)] for n, a, _ in case["calls"]]
+    calls = [[n, (0 if n in NOARG else a)] for n, a, _ in case["calls"]]
     bad = []
+    if ob.get("queue_errors"):
+        i, name, x = ob["queue_errors"][0]
+        return [("batch-queue-raised", "queueing call %d (%s) on the BatchProxy raised %s%r; made alone the call %s, and in a batch its outcome belongs at its position or at submission" % (
+            i, name, x["cls"], tuple(x["args"]), "succeeds" if name in EXPOSED else "is refused by the daemon"))]
     n = len(os_["log"])
     seq_fail = os_["outs"][-1][1] if os_["outs"] and os_["outs"][-1][0] == "exc" else None
     view = ob["view"]
@@ -313,6 +343,8 @@ def c_out(o):
 
 def c_case(case, obs, broken):
     ob, os_ = obs["batch"], obs["seq"]
+    if ob.get("queue_errors"):
+        return None
     v = ob["view"]
     if v[0] == "nothing":
         view = "CNothing"
@@ -334,7 +366,7 @@ def c_case(case, obs, broken):
     return ("One {| k_oneway := %s; k_submit_broken := %s; k_s0 := %s; k_calls := %s; k_b_state := %s; k_b_log := %s; "
             "k_b_view := %s; k_q_state := %s; k_q_log := %s; k_q_outs := %s |}") % (
         cbool(case["oneway"]), cbool(broken), cZ(case["s0"]),
-        clist([c_call(n, (0 if n in ("get", "__init__") else a)) for n, a, _ in case["calls"]]),
+        clist([c_call(n, (0 if n in NOARG else a)) for n, a, _ in case["calls"]]),
         cZ(ob["state"]), c_log(ob["log"]), view, cZ(os_["state"]), c_log(os_["log"]), clist(qouts))
 
 
@@ -345,11 +377,18 @@ ALL = 999
 
 
 def queue_call(e, b, name, arg, kw):
+    """queue one call the way a caller does: b.<name>(args).  Returns None, or the exception raised while queueing
+    (the caller notes it and carries on).  Only a name that resolves locally on the BatchProxy object itself
+    (__init__) has to be queued by hand."""
     args, kwargs = call_args(name, arg, kw)
-    if name.startswith("__"):
+    if hasattr(type(b), name):
         e.client._BatchedRemoteMethod(b._BatchProxy__calls, name)(*args, **kwargs)
-    else:
+        return None
+    try:
         getattr(b, name)(*args, **kwargs)
+    except Exception as x:
+        return exc_canon(x)
+    return None
 
 
 def run_history(case):
@@ -359,10 +398,21 @@ def run_history(case):
     a.total, a.log = case["s0"], []
     b = e.api.BatchProxy(e.pa[case["ser"]])
     gens, obs = [], []
+    gated = bool(case.get("gate"))
+    timer = None
     for ev in case["events"]:
+        if ev[0] == "s" and gated:
+            # the previous (oneway) submission has had its chance: the following request is about to be made.
+            # A new oneway submission closes the gate again; a helper opens it after a short delay so that a
+            # daemon running the oneway batch inline (before it reads the next request) is never stuck.
+            if ev[1] == "oneway":
+                GATE.clear()
+                timer = threading.Timer(0.03, GATE.set)
+                timer.daemon = True
+                timer.start()
         if ev[0] == "q":
-            queue_call(e, b, ev[1], ev[2], ev[3])
-            obs.append(["q"])
+            x = queue_call(e, b, ev[1], ev[2], ev[3])
+            obs.append(["q"] if x is None else ["q", x])
         elif ev[0] == "s":
             before = len(a.log)
             try:
@@ -378,6 +428,8 @@ def run_history(case):
                 kind = ["nothing"] if g is None else ["gen"]
             gens.append(g)
             obs.append(["s", a.total, [list(t) for t in a.log[before:]], kind])
+            if gated and ev[1] != "oneway":
+                settle()
         else:
             k, n = ev[1], ev[2]
             g = gens[k] if 0 <= k < len(gens) else None
@@ -395,7 +447,16 @@ def run_history(case):
                     if len(outs) > 200:
                         break
             obs.append(["i", outs])
+    settle()
     return {"trace": obs, "final": a.total}
+
+
+def settle():
+    """open the gate and wait for any oneway work a daemon may have pushed into background threads"""
+    GATE.set()
+    for t in threading.enumerate():
+        if t.name.startswith("oneway") and t is not threading.current_thread():
+            t.join(3.0)
 
 
 def probe_keep():
@@ -415,6 +476,9 @@ def oracle_history(case, obs):
     nsub = 0
     for ev, ob in zip(case["events"], obs["trace"]):
         if ev[0] == "q":
+            if len(ob) > 1:
+                return bad + [("batch-queue-raised", "queueing %s on the BatchProxy raised %s%r; made alone the call %s, and in a batch its outcome belongs at its position or at submission" % (
+                    ev[1], ob[1]["cls"], tuple(ob[1]["args"]), "succeeds" if ev[1] in EXPOSED else "is refused by the daemon"))]
             pending.append([ev[1], ev[2], ev[3]])
             continue
         if ev[0] == "s":
@@ -424,7 +488,10 @@ def oracle_history(case, obs):
             refused = bool(ref["outs"]) and ref["outs"][-1][0] == "exc" and len(ref["log"]) < len(ref["outs"])
             kind = ob[3]
             found = []
-            if ob[2] != ref["log"]:
+            if oneway and ob[2] != ref["log"] and ob[2] == ref["log"][:len(ob[2])]:
+                found.append(("oneway-batch-not-in-effect", "oneway submission %d returned with only %d of its %d call(s) executed (total %r instead of %r): its calls do not take effect before "
+                              "requests made afterwards on the same proxy" % (nsub, len(ob[2]), len(ref["log"]), ob[1], ref["state"])))
+            elif ob[2] != ref["log"]:
                 found.append(("reuse-batch-executed-differs", "submission %d of a re-used BatchProxy executed %r; the calls queued since the previous submission, made one by one, execute %r" % (
                     nsub, ob[2][:8], ref["log"][:8])))
             elif ob[1] != ref["state"]:
@@ -465,7 +532,7 @@ def oracle_history(case, obs):
 
 def c_event(ev):
     if ev[0] == "q":
-        return "EvQueue %s" % c_call(ev[1], 0 if ev[1] in ("get", "__init__") else ev[2])
+        return "EvQueue %s" % c_call(ev[1], 0 if ev[1] in NOARG else ev[2])
     if ev[0] == "s":
         return "EvSubmit %s" % cbool(ev[1] == "oneway")
     return "EvIterate %d%%nat %d%%nat" % (ev[1], ALL if ev[2] < 0 else ev[2])
@@ -475,7 +542,7 @@ def c_hist(case, obs, keep):
     items = []
     for ob in obs["trace"]:
         if ob[0] == "q":
-            items.append("OQ")
+            items.append("OQ" if len(ob) == 1 else "OQRaised")
         elif ob[0] == "s":
             if not isinstance(ob[1], int) or any(n not in METH or not isinstance(a, int) for n, a in ob[2]):
                 return None
@@ -522,8 +589,32 @@ def gen_history(rng, thorough):
     return {"kind": "hist", "ser": rng.choice(SERIALIZERS), "s0": rng.choice([0, 0, 1, 5, -3, rng.randint(-1000, 1000)]), "events": events}
 
 
+def gen_gate_history(rng):
+    """a oneway batch holding a gated call, then a normal call batch on the same proxy that depends on its effect"""
+    ev = []
+    for _ in range(rng.choice([0, 1, 2])):
+        ev.append(["q", "add", rng.choice([1, 2, 5, -3]), False])
+    ev.append(["q", "gated", rng.choice([10, 100, 7]), False])
+    for _ in range(rng.choice([0, 1, 2])):
+        c = gen_call(rng, 0.1)
+        ev.append(["q", c[0], c[1], c[2]])
+    ev.append(["s", "oneway"])
+    for _ in range(rng.choice([1, 1, 2])):
+        ev.append(["q", rng.choice(["get", "add", "mul", "__len__"]), rng.choice([0, 1, 3]), False])
+    if ev[-1][1] in NOARG:
+        ev[-1][2] = 0
+    for e in ev:
+        if e[0] == "q" and e[1] in NOARG:
+            e[2] = 0
+    ev.append(["s", rng.choice(["call", "invoke"])])
+    ev.append(["i", 1, -1])
+    return {"kind": "hist", "gate": True, "ser": rng.choice(SERIALIZERS), "s0": rng.choice([0, 1, 5]), "events": ev}
+
+
 def gen_histories(ctx):
-    return [gen_history(ctx.rng, not ctx.quick) for _ in range(ctx.n(900, 12000))]
+    out = [gen_history(ctx.rng, not ctx.quick) for _ in range(ctx.n(900, 12000))]
+    out += [gen_gate_history(ctx.rng) for _ in range(ctx.n(24, 120))]
+    return out
 
 
 def targeted_histories():
@@ -540,6 +631,11 @@ def targeted_histories():
                                                                     Q("get", 0), ["s", "call"], ["i", 2, -1]]})
         # a submission that raises, then re-use
         out.append({"kind": "hist", "ser": ser, "s0": 0, "events": [Q("add", 1), Q("hidden", 1), ["s", "call"], Q("add", 5), ["s", "call"], ["i", 1, -1]]})
+        # a oneway batch must have taken effect before the next request on the same proxy is served
+        out.append({"kind": "hist", "gate": True, "ser": ser, "s0": 0, "events": [Q("add", 1), Q("gated", 10), Q("add", 100), ["s", "oneway"], Q("get", 0), ["s", "call"], ["i", 1, -1]]})
+        # double-underscore names: exposed special methods, private, unexposed and reserved ones
+        out.append({"kind": "hist", "ser": ser, "s0": 2, "events": [Q("add", 1), Q("__len__", 0), Q("__getitem__", 5), ["s", "call"], ["i", 0, -1], Q("add", 1), Q("__secret", 0), Q("add", 5), ["s", "call"]]})
+        out.append({"kind": "hist", "ser": ser, "s0": 2, "events": [Q("add", 1), Q("__hidden__", 0), Q("add", 5), ["s", "oneway"], Q("__del__", 0), ["s", "call"]]})
         # empty submissions
         out.append({"kind": "hist", "ser": ser, "s0": 0, "events": [["s", "call"], ["i", 0, -1], ["s", "oneway"], Q("add", 1), ["s", "call"], ["s", "call"], ["i", 2, -1], ["i", 3, -1]]})
     return out
@@ -555,17 +651,17 @@ def gen_call(rng, pfail):
         k = rng.random()
         if k < 0.45:
             name = rng.choice(REFUSED)
-            return [name, rng.choice(ARGS), False]
+            return [name, 0 if name in NOARG else rng.choice(ARGS), False]
         if k < 0.65:
             return ["boom", rng.choice(ARGS), rng.random() < 0.3]
         if k < 0.8:
             return ["div", 0, rng.random() < 0.3]
         return ["sub", rng.choice([10 ** 6, 10 ** 12, 2 ** 31, 10 ** 13]), rng.random() < 0.3]
-    name = rng.choice(["add", "add", "add", "mul", "mul", "get", "sub", "sub", "div"])
+    name = rng.choice(["add", "add", "add", "mul", "mul", "get", "sub", "sub", "div", "__len__", "__getitem__", "__len__", "gated"])
     arg = rng.choice(ARGS) if rng.random() < 0.7 else rng.randint(-50, 50)
     if name == "div" and arg == 0 and rng.random() < 0.7:
         arg = rng.choice([1, 2, 3, -2, 7])
-    if name == "get":
+    if name in NOARG:
         arg = 0
     return [name, arg, rng.random() < 0.3]
 
@@ -596,7 +692,7 @@ def targeted():
     """every kind of failing member at every position of a short batch, both modes, every serializer;
     the witness of the no-break refutation; empty batch"""
     out = []
-    fails = [["sub", 10 ** 6, False], ["div", 0, False], ["boom", 4, False]] + [[n, 1, False] for n in REFUSED]
+    fails = [["sub", 10 ** 6, False], ["div", 0, False], ["boom", 4, False]] + [[n, 0 if n in NOARG else 1, False] for n in REFUSED]
     for ser in SERIALIZERS:
         for oneway in (False, True):
             out.append({"ser": ser, "oneway": oneway, "s0": 0, "calls": []})
@@ -606,6 +702,7 @@ def targeted():
                     calls = [["add", 2, False], ["mul", 3, True], ["add", 5, False]]
                     calls.insert(pos, list(f))
                     out.append({"ser": ser, "oneway": oneway, "s0": 1, "calls": calls})
+            out.append({"ser": ser, "oneway": oneway, "s0": 3, "calls": [["add", 1, False], ["add", 2, False], ["__len__", 0, False], ["__getitem__", 4, True], ["add", 3, False], ["__len__", 0, False]]})
             # two failing members: only the first counts
             out.append({"ser": ser, "oneway": oneway, "s0": 2, "calls": [["add", 1, False], ["boom", 1, False], ["hidden", 1, False], ["add", 1, False]]})
             out.append({"ser": ser, "oneway": oneway, "s0": 2, "calls": [["add", 1, False], ["hidden", 1, False], ["boom", 1, False], ["add", 1, False]]})
